@@ -304,6 +304,14 @@ def ix_(*seqs):
 class _NS:
     """attribute container standing in for the numpy module"""
 
+    def __getattr__(self, name):
+        # a numpy name the model does not implement is a tool limit (the obligation is then decided by the bounded
+        # stand-in on the real code), not a crash of the checker and not an AttributeError of the traced code
+        import numpy as _real
+        if hasattr(_real, name):
+            raise OutOfReach('numpy.%s is not modelled' % name)
+        raise AttributeError(name)
+
 
 def make_np():
     ns = _NS()
